@@ -173,12 +173,16 @@ fn entry_short(n: usize) {
 #[kani::proof]
 #[kani::unwind(20)]
 fn k_entry_short() {
+    entry_short(15);
+}
+#[kani::proof]
+#[kani::unwind(20)]
+fn k_entry_short_all() {
     entry_short(0);
     entry_short(3);
     entry_short(4);
     entry_short(8);
     entry_short(12);
-    entry_short(15);
 }
 
 /// K-WRITE-INDEX-SINK (C14), bounded twin of the Verus obligation IndexEntry::write_index (which
@@ -547,4 +551,107 @@ fn k_getters_i18n() {
         }
     }
     std::mem::forget(h);
+}
+
+// ---- IndexData::append (contract of the Verus unit c09_from_entries) ----------------------------
+fn check_append(d: &IndexData, prior: usize, align: usize, enc: &[u8]) {
+    let mut store: Vec<u8> = Vec::with_capacity(32);
+    let mut i = 0;
+    while i < prior {
+        store.push(0xAA);
+        i += 1;
+    }
+    let r = d.append(&mut store) as usize;
+    let want_pad = (align - prior % align) % align;
+    assert!(r == want_pad);
+    assert!(store.len() == prior + want_pad + enc.len());
+    let mut k = 0;
+    while k < store.len() {
+        if k < prior {
+            assert!(store[k] == 0xAA); // nothing before the old end changes
+        } else if k < prior + want_pad {
+            assert!(store[k] == 0);
+        } else {
+            assert!(store[k] == enc[k - prior - want_pad]);
+        }
+        k += 1;
+    }
+}
+/// K-APPEND (bounded: prior store lengths 0, 1, 3, 5; 1-2 items): returned alignment makes the
+/// data start type-aligned, the appended bytes are the big-endian / NUL-terminated encoding,
+/// nothing before the old end changes.
+// The integer arms go through `iter().flat_map(|i| i.to_be_bytes().to_vec())`, which is costly for
+// CBMC: straight-line harnesses with one item and a fixed misaligned prior length.
+#[kani::proof]
+#[kani::unwind(6)]
+fn k_append_int16() {
+    let a: u16 = kani::any();
+    let mut store: Vec<u8> = Vec::with_capacity(8);
+    store.push(0xAA);
+    let r = IndexData::Int16(vec![a]).append(&mut store);
+    let e = a.to_be_bytes();
+    assert!(r == 1);
+    assert!(store.len() == 4 && store[0] == 0xAA && store[1] == 0 && store[2] == e[0] && store[3] == e[1]);
+}
+#[kani::proof]
+#[kani::unwind(6)]
+fn k_append_int32() {
+    let a: u32 = kani::any();
+    let mut store: Vec<u8> = Vec::with_capacity(8);
+    store.push(0xAA);
+    let r = IndexData::Int32(vec![a]).append(&mut store);
+    let e = a.to_be_bytes();
+    assert!(r == 3);
+    assert!(store.len() == 8 && store[0] == 0xAA && store[1] == 0 && store[2] == 0 && store[3] == 0);
+    assert!(store[4] == e[0] && store[5] == e[1] && store[6] == e[2] && store[7] == e[3]);
+}
+#[kani::proof]
+#[kani::unwind(10)]
+fn k_append_int64() {
+    let a: u64 = kani::any();
+    let mut store: Vec<u8> = Vec::with_capacity(16);
+    store.push(0xAA);
+    store.push(0xAA);
+    store.push(0xAA);
+    store.push(0xAA);
+    store.push(0xAA);
+    let r = IndexData::Int64(vec![a]).append(&mut store);
+    let e = a.to_be_bytes();
+    assert!(r == 3);
+    assert!(store.len() == 16 && store[4] == 0xAA && store[5] == 0 && store[6] == 0 && store[7] == 0);
+    assert!(store[8] == e[0] && store[9] == e[1] && store[10] == e[2] && store[11] == e[3]);
+    assert!(store[12] == e[4] && store[13] == e[5] && store[14] == e[6] && store[15] == e[7]);
+}
+#[kani::proof]
+#[kani::unwind(10)]
+fn k_append_ints_aligned() {
+    let a: u16 = kani::any();
+    let mut store: Vec<u8> = Vec::with_capacity(8);
+    store.push(0xAA);
+    store.push(0xAA);
+    let r = IndexData::Int16(vec![a, a]).append(&mut store);
+    let e = a.to_be_bytes();
+    assert!(r == 0 && store.len() == 6 && store[2] == e[0] && store[3] == e[1] && store[4] == e[0] && store[5] == e[1]);
+    let c: u64 = kani::any();
+    let mut s2: Vec<u8> = Vec::with_capacity(8);
+    let r2 = IndexData::Int64(vec![c]).append(&mut s2);
+    let f = c.to_be_bytes();
+    assert!(r2 == 0 && s2.len() == 8 && s2[0] == f[0] && s2[7] == f[7]);
+}
+#[kani::proof]
+#[kani::unwind(12)]
+fn k_append_bytes() {
+    let a: u8 = kani::any();
+    let b: u8 = kani::any();
+    check_append(&IndexData::Bin(vec![a, b]), 1, 1, &[a, b]);
+    check_append(&IndexData::Char(vec![a, b]), 3, 1, &[a, b]);
+    check_append(&IndexData::Int8(vec![a, b]), 0, 1, &[a, b]);
+    check_append(&IndexData::Null, 5, 1, &[]);
+}
+#[kani::proof]
+#[kani::unwind(12)]
+fn k_append_strings() {
+    check_append(&IndexData::StringTag(String::from("ab")), 1, 1, &[b'a', b'b', 0]);
+    check_append(&IndexData::StringArray(vec![String::from("a"), String::from("")]), 3, 1, &[b'a', 0, 0]);
+    check_append(&IndexData::I18NString(vec![String::from("x"), String::from("yz")]), 0, 1, &[b'x', 0, b'y', b'z', 0]);
 }
